@@ -81,6 +81,12 @@ func Features(s *ast.Schema, doc *ast.QueryDocument, op *ast.OperationDefinition
 				if key == "" {
 					key = x.Name
 				}
+				for k0, n0 := range keys {
+					if n0 == key && k0 != key && k0 != n0 {
+						// an earlier sibling selects the field called like this response key under another alias
+						fs["key-equals-earlier-aliased-field-name"] = true
+					}
+				}
 				names[x.Name] = append(names[x.Name], key)
 				keys[key] = x.Name
 				if x.Alias != "" && x.Alias != x.Name {
